@@ -72,6 +72,9 @@ def configs(shard, tier):
             # automatic histogram window (no explicit edges): a refused first batch must not leave its window behind
             out.append(dict(family=fam, tdt=tdt, prec=p, S=shape[0], wdims=shape[1], pool_kind='exact', N=n + 1, auto=False, policy='alt', rejections=('rows', 'rows_less', 'dtype', 'dtype64', 'type_data', 'memory'),
                             max_rej=2, max_consecutive_computes=1, auto_edges=True))
+        if fam in ('anova', 'nicv', 'snr', 'mia', 'tplbuild') and tdt == 'uint8':
+            # a numeric batch that passes every explicit check and is refused by the compiled kernel at dispatch (float16 traces): a small separate system, because each such refusal is slow
+            out.append(dict(family=fam, tdt=tdt, prec=p, S=shape[0], wdims=shape[1], pool_kind=kind, N=n, auto=False, policy='alt', rejections=('traces_f16',), max_rej=1, max_consecutive_computes=1))
         if fam == 'cpa' and tier == 'thorough':
             out.append(dict(family=fam, tdt=tdt, prec=p, S=1, wdims=(2, 2), pool_kind=kind, N=n, auto=False, policy='alt', rejections=MENU[fam], max_rej=2, max_consecutive_computes=1))
     return out
